@@ -104,12 +104,17 @@ inductive TOut
   | nosuch
 deriving Repr, DecidableEq
 
+/-- `now + 30` in `ondns` / `onaccept_udp` (the literals are read off the source on every run). -/
+def timeout : Kind → Nat
+  | .dns => Generated.CLIENT_DNS_TIMEOUT
+  | _ => Generated.CLIENT_UDP_TIMEOUT
+
 def Timed.step (max probes : Nat) (s : Timed) : TOp → Timed × TOut
   | .tick d => ({ s with now := s.now + d }, .ticked)
   | .base (.open k) =>
     match s.t.step max probes (.open k) with
     | (t1, .opened c f) =>
-      let s1 : Timed := { s with t := t1, dl := if k = .tcp then s.dl else s.dl ++ [(c, s.now + 30)] }
+      let s1 : Timed := { s with t := t1, dl := if k = .tcp then s.dl else s.dl ++ [(c, s.now + timeout k)] }
       (s1.expire s.now, .base (.opened c f))
     | (t1, o) => ({ s with t := t1 }, .base o)         -- no id: the handler returns before the sweep
   | .base (.close c) =>
@@ -122,7 +127,7 @@ def Timed.step (max probes : Nat) (s : Timed) : TOp → Timed × TOut
     match s.t.live.find? (·.1 == c) with
     | some (_, .udp, _) =>
       if s.dl.any (·.1 == c) then
-        let s1 : Timed := { s with dl := s.dl.map fun e => if e.1 == c then (c, s.now + 30) else e }
+        let s1 : Timed := { s with dl := s.dl.map fun e => if e.1 == c then (c, s.now + timeout .udp) else e }
         (s1.expire s.now, .sent c)
       else (s, .nosuch)
     | _ => (s, .nosuch)
